@@ -96,16 +96,23 @@ def uri(t: str) -> bool:
 
 def colons(t: str) -> bool:
     """
-    Any number of ':' never raises; an unaccepted string is untyped, falsy, with no fields.
+    Any number of ':' never raises: the part before the FIRST ':' forces the type, the rest is the string, kept verbatim
+    (a free pattern may accept a ':' inside a segment); an unaccepted string is untyped, falsy, with no fields.
     pre: NMIN <= len(t) <= N
     pre: '?' not in t
     post: _
     """
-    s = PRE + t + SUF
+    s = PRE + t + SUF if SUF else PRE + t
     sid = Sid(s)
-    if not sid.type:
-        return sid.fields == {} and len(sid) == 0 and not bool(sid)
-    return len(sid.fields) > 0 and bool(sid)
+    if ":" not in s:
+        exp_type, exp_fields = typing_ref.type_string(s)
+        return _check_against_oracle(sid, s, exp_type, exp_fields)
+    forced, rest = s.split(":", 1)
+    if forced == "":
+        exp_type, exp_fields = typing_ref.type_string(rest)
+    else:
+        exp_type, exp_fields = typing_ref.type_string(rest, forced=forced)
+    return _check_against_oracle(sid, rest, exp_type, exp_fields)
 
 
 def reach_typed(t: str) -> bool:
